@@ -31,11 +31,77 @@ def none_vs_all_true(run, funcs):
                       a['pre'] + [b['mask'](b['j']), b['mask'](b['idx'])], z3.Not(Ca == Cb), timeout=20, cross=False)
 
 
+def twin_face_integrals(run, funcs):
+    """C13.c: the face integral stored in the tessellation (VoronoiFaceIntegral) and the public AreaCentroidIntegral are the same function of
+    the accumulated (area, moment), for EVERY accumulator (also zero / negative signed area) - and AreaIntegral's area is the same sum."""
+    import re
+    from .common import Call, rvec
+    from .geomrules import veq
+    area, cen, nrm = z3.Real('acc_area'), rvec('acc_cen'), rvec('acc_nrm')
+    fv = lambda v, nm: v.items[engine.field_index('src/voronoi/voronoi_face.rs', 'VoronoiFaceIntegral', nm)]
+    fa = lambda v, nm: v.items[engine.field_index('src/voronoi/integrals.rs', 'AreaCentroidIntegral', nm)]
+    n1 = engine.find_fn_where(funcs, r'voronoi_face::<impl at [^>]*>::finalize$', 'VoronoiFaceIntegral')
+    n2 = engine.find_fn_where(funcs, r'integrals::<impl at [^>]*>::finalize$', 'AreaCentroidIntegral')
+    a = Call(run, funcs, '^' + re.escape(n1) + '$', [engine.make_struct('src/voronoi/voronoi_face.rs', 'VoronoiFaceIntegral', area=area, centroid=cen, normal=nrm)])
+    b = Call(run, funcs, '^' + re.escape(n2) + '$', [engine.make_struct('src/voronoi/integrals.rs', 'AreaCentroidIntegral', area=area, centroid=cen)])
+    from .common import hyps_of
+    for ka, (sa, va) in enumerate(a.outs):
+        for kb, (sb, vb) in enumerate(b.outs):
+            H = hyps_of(sa) + hyps_of(sb)
+            goal = z3.And(veq(fv(va, 'centroid'), fa(vb, 'centroid')), to_z3(fv(va, 'area')) == to_z3(fa(vb, 'area')))
+            vv, m = run.prove('C13 finalize twins [stored path %d, integrator path %d]: VoronoiFaceIntegral and AreaCentroidIntegral give the same area and centroid for every accumulator'
+                              % (ka, kb), H, z3.Not(goal), timeout=20, on_sat='caller')
+            if vv == 'sat':
+                av = float(engine.model_value(m, area))
+                pl = {'kind': 'finalize_twins', 'area': av}
+                bad = check_finalize_twins_native(pl)
+                if bad:
+                    run.violation('C13 ' + bad, engine.save_replay('C13', pl))
+                else:
+                    run.suspect.append('C13 finalize twins: counterexample (accumulated area %g) does not reproduce natively' % av)
+    # collect twins
+    v0, v1, v2, gen = rvec('v0'), rvec('v1'), rvec('v2'), rvec('gen')
+    A = z3.Real('A')
+    from .buildrules import rec
+    c1 = engine.find_fn_where(funcs, r'voronoi_face::<impl at [^>]*>::collect$', 'VoronoiFaceIntegral')
+    c2 = engine.find_fn_where(funcs, r'integrals::<impl at [^>]*>::collect$', 'AreaCentroidIntegral')
+    x = Call(run, funcs, '^' + re.escape(c1) + '$', [engine.make_struct('src/voronoi/voronoi_face.rs', 'VoronoiFaceIntegral', area=area, centroid=cen, normal=nrm), v0, v1, v2, gen],
+             by_ref=(0,), overrides={'signed_area_tri': rec('signed_area_tri', A)})
+    y = Call(run, funcs, '^' + re.escape(c2) + '$', [engine.make_struct('src/voronoi/integrals.rs', 'AreaCentroidIntegral', area=area, centroid=cen), v0, v1, v2, gen],
+             by_ref=(0,), overrides={'signed_area_tri': rec('signed_area_tri', A)})
+    (sx, _), (sy, _) = x.single(), y.single()
+    ax, ay = x.arg_after(sx, 0), y.arg_after(sy, 0)
+    ex = [e[1] for e in sx.events if e[0] == 'signed_area_tri']
+    ey = [e[1] for e in sy.events if e[0] == 'signed_area_tri']
+    same_args = len(ex) == 1 and len(ey) == 1 and all(p is q for p, q in zip(ex[0], ey[0]))
+    run.prove('C13 collect twins: VoronoiFaceIntegral and AreaCentroidIntegral accumulate the same area and moment from the same signed_area_tri call',
+              hyps_of(sx) + hyps_of(sy), z3.Not(z3.And(z3.BoolVal(same_args), veq(fv(ax, 'centroid'), fa(ay, 'centroid')), to_z3(fv(ax, 'area')) == to_z3(fa(ay, 'area')))), timeout=20)
+
+
+def check_finalize_twins_native(p, profile='debug'):
+    """accumulate triangles whose signed areas sum to the requested sign through the real VoronoiFace and AreaCentroidIntegral"""
+    lines = ['finalize_twins 1 0 0 0.3 1 0 0.3 0 1 0.3 0.2 0.2 0', 'finalize_twins 1 0 0 0.3 0 1 0.3 1 0 0.3 0.2 0.2 0',
+             'finalize_twins 2 0 0 0.3 1 0 0.3 0 1 0.3 0 0 0.3 0 1 0.3 1 0 0.3 0.2 0.2 0',
+             'finalize_twins 2 0 0 0.3 1 0 0.3 0 1 0.3 0.1 0.1 0.3 0.1 0.6 0.3 0.6 0.1 0.3 0.2 0.2 0',
+             'finalize_twins 2 0 0 0.3 0 1 0.3 1 0 0.3 0.1 0.1 0.3 0.6 0.1 0.3 0.1 0.6 0.3 0.2 0.2 0']
+    for prof in ('debug', 'release'):
+      for line in lines:
+        o = engine.native([line], prof)[0]
+        if o[0] != 'ok':
+            return 'native finalize scenario panicked'
+        v = [float(t) for t in o[1:9]]
+        if v[0] != v[4] or any(abs(x - y) > 1e-12 for x, y in zip(v[1:4], v[5:8])):
+            return 'accumulated signed area %r: stored face (area, centroid) = %r but AreaCentroidIntegral gives %r [%s build]' % (v[0], v[0:4], v[4:8], prof)
+    return None
+
+
 def check(run):
     funcs, info = engine.load_mir('ibig')
     run.mir_info.append(info)
     BR.check_face_loops(run, funcs, 'C13')
+    BR.check_cell_loop(run, funcs, 'C13')       # cell integrals through the integrator see the whole decomposition (volume / centroid as stored)
     none_vs_all_true(run, funcs)
+    twin_face_integrals(run, funcs)
     BR.check_normalisation(run, funcs, 'C13')
     BR.check_integrator_closures(run, funcs, 'C13')
     SR.integrator_with_faces(run, funcs, 'C13')   # Voronoi::from(&integrator.with_faces()) sees the same integrator
@@ -50,4 +116,8 @@ def replay(path):
         return C03.replay(path)
     if d['kind'] in SR.NATIVE:
         return SR.replay(d)
+    if d['kind'] == 'finalize_twins':
+        bad = check_finalize_twins_native(d)
+        print(bad)
+        return 1 if bad else 0
     return BR.replay(d)
